@@ -76,7 +76,7 @@ func (check) Cases(tier string) int {
 func (check) Exhaustive(string) bool { return false }
 
 func (check) Rule() string {
-	return "each random case: 20 documents = a random data tree (objects over a key pool incl. \"\", spaces, quotes, backslash, non-ASCII; arrays; strings over an alphabet with quote, backslash, solidus, control, DEL, non-ASCII, astral, Unicode spaces and all syntax characters, strings ending in backslashes; integers at the int64/uint64/2^53 boundaries; floats incl. extremes; true/false/null; {} and []) rendered by our own renderer (compact / indented / whitespace with probability 8..95% at every position JSON allows; every escape spelling incl. upper/lower/mixed hex and surrogate pairs; fraction and exponent respellings of numbers), validated against encoding/json, parsed with parse.Value and with all 24 legal parse.Config values; ~1/7 of the documents additionally spell some strings with single quotes; plus 2 top-level comma word lists per case; plus 6 nested-literal documents per case (arrays/objects, nested up to 3 deep, under a config with Object, StringDQuote and/or StringSQuote off, whose elements / member values open with a disabled { \" or ' and hold the other container's closer, colons, quotes, spaces; mixed with normal scalars, enabled-quote strings holding stop characters, unquoted and enabled-quote keys; each run with IgnoreCommas off and on); plus (thorough: all, quick: a seed-chosen slice of) strings of length <= 6 over [ ] { } \" , : \\ a 1 space that encoding/json accepts. Non-trivial = the document has at least one container or one escaped string; distinct = distinct document text."
+	return "each random case: 20 documents = a random data tree (objects over a key pool incl. \"\", spaces, quotes, backslash, non-ASCII; arrays; strings over an alphabet with quote, backslash, solidus, control, DEL, non-ASCII, astral, Unicode spaces and all syntax characters, strings ending in backslashes; integers at the int64/uint64/2^53 boundaries; floats incl. extremes; true/false/null; {} and []) rendered by our own renderer (compact / indented / whitespace with probability 8..95% at every position JSON allows; every escape spelling incl. upper/lower/mixed hex and surrogate pairs; fraction and exponent respellings of numbers), validated against encoding/json, parsed with parse.Value and with all 24 legal parse.Config values; ~1/7 of the documents additionally spell some strings with single quotes; plus 2 top-level comma word lists per case; plus 6 nested-literal documents per case (arrays/objects, nested up to 3 deep, under a config with Object, StringDQuote and/or StringSQuote off, whose elements / member values open with a disabled { \" or ' and hold the other container's closer, colons, quotes, spaces; mixed with normal scalars, enabled-quote strings holding stop characters, unquoted and enabled-quote keys; each run with IgnoreCommas off and on); plus 4 top-level comma documents per case (a complete dq-string / sq-string / array / object / word followed by a comma and nothing, a quoted value, a container, a word or 2-3 more values; all 24 configs); plus wide/deep documents (quick: one deep per case, one wide every 4th case; thorough: every 5th / 20th): 0-3 wrapper levels, a wide array or object with 0-6 (deep) or 100-60000 (wide, clustered around 10000) siblings drawn from a 1-3 kind palette of 14 element kinds (empty containers with and without blanks, scalars, short strings, small containers), a tail chain of arrays/objects placed first/middle/last whose depth aims at exactly 10000 (35%), 9999, 10001, beyond, or anything below, siblings before the child at 0/1/30/100% of the tail levels, three whitespace layouts; half of them parsed right after an over-limit, unterminated or empty-object-heavy document; parsed with parse.Value and one more config; plus (thorough: all, quick: a seed-chosen slice of) strings of length <= 6 over [ ] { } \" , : \\ a 1 space that encoding/json accepts. Non-trivial = the document has at least one container or one escaped string; distinct = distinct document text."
 }
 
 func (check) Assumptions() []string {
@@ -86,6 +86,8 @@ func (check) Assumptions() []string {
 		"numbers: integers in digit spelling over the whole int64/uint64 range; fraction/exponent spellings only for values a float64 holds exactly (|n| <= 2^53) or for float64 data (compared with the correctly rounded value); nothing beyond uint64/float64 range; no duplicate object keys",
 		"single-quoted strings are taken verbatim (documented: no unescaping) and never contain a single quote",
 		"config rules: (1) a document using only enabled syntax must parse as under DefaultConfig (or as the generating data); (2) a document OPENING with a disabled bracket/quote must come back as its literal trimmed text, judged only without any comma in the text or under IgnoreCommas; random JSON documents using disabled syntax only deeper inside are not judged (their commas make the literal reading split them); the nested-literal documents judge exactly that position: an array element / object member value opening with a disabled opener is the raw text up to the container's next stop character (comma or ] in an array, comma or } in an object), no bracket or quote matching, trimmed; expectation built constructively and cross-checked by an own raw-slicing reader of that rule (disagreement = generator_error); object keys opening with a DISABLED quote are not generated (the parser reads quoted keys regardless of the flags); (3) plain-word comma lists: list without IgnoreCommas, one string with it; IgnoreCommas after a quoted first element is not generated",
+		"nesting: the parser refuses documents nested deeper than encoding/json does (10000 open arrays/objects); a document whose deepest value sits inside at most 10000 containers must parse and read back faithfully whatever its width, its earlier elements or what was parsed before in the process; a deeper document may be refused or parsed faithfully (both accepted, anything else is a violation); wide/deep results are compared by a linear-time structural hash of the same canonical form",
+		"IgnoreCommas with a comma after a COMPLETE top-level value whose opener is enabled (quoted string, array, object; also trailing comma): the result must not be a list built from that comma; the whole trimmed text as one string or an error are both accepted, but one shape (first value kind x what follows) must always get the same kind within a case; with IgnoreCommas off and all used syntax enabled a,b,c is the list of the values (trailing comma not judged)",
 		"invalid JSON, trailing commas, unquoted strings inside containers are outside this property (C07 covers crashes on malformed input)",
 	}
 }
@@ -725,6 +727,19 @@ func (check) Run(seed int64, tier string, idx int, verbose bool) harness.Result 
 	}
 	for k := 0; k < nestedDocsPerCase; k++ {
 		c.nestedDoc(r, tier)
+	}
+	c.commaDocs(r)
+	// wide / deep documents cost 10-50 ms each: every case (deep) and every 4th
+	// case (wide) in the quick tier, every 5th / 20th in the thorough tier
+	deepEvery, wideEvery := 1, 4
+	if tier == "thorough" {
+		deepEvery, wideEvery = 5, 20
+	}
+	if idx%deepEvery == 0 {
+		c.bigDoc(r, false)
+	}
+	if idx%wideEvery == 0 {
+		c.bigDoc(r, true)
 	}
 	return res.Done()
 }
